@@ -409,6 +409,9 @@ type CallSpec struct {
 	CtxHook func(context.Context) context.Context
 	// PreCancel cancels the RPC's context before the RPC is started.
 	PreCancel bool
+	// KeepCtx: the RPC's context is never cancelled by the caller (like context.Background()),
+	// so anything that waits for it outlives the call unless the library ends it.
+	KeepCtx bool
 }
 
 func methodDesc(m string) (full string, sd *grpc.StreamDesc) {
@@ -440,7 +443,9 @@ func (w *World) RunCall(conn grpc.ClientConnInterface, spec *CallSpec) {
 	} else {
 		ctx, cancel = context.WithCancel(ctx)
 	}
-	defer cancel()
+	if !spec.KeepCtx {
+		defer cancel()
+	}
 	w.registerCancel(spec.ID, cancel)
 	if spec.PreCancel {
 		cancel()
